@@ -71,7 +71,7 @@ Definition dangling_ops : list op :=
   [OpKey 97 0; OpKey 120 0; OpSelect 3; OpKey 32 0] ++ rep 21 [OpKey 120 0; OpKey 32 0] ++ [OpKey 97 0; OpCommit].
 
 Theorem commit_history_dangling :
-  let cfg := synth_cfg_gen true true true false in
+  let cfg := synth_cfg_gen true true true true false in
   total_hyps cfg oracle_translate /\ cands_fit oracle_translate /\
   cf_segmentors cfg = [SgAbc; SgFallback] /\ ~ In PPunctuator (cf_processors cfg) /\
   existsb (fun o => match o with ObsCrash ErrDangling => true | _ => false end)
@@ -86,7 +86,7 @@ Qed.
 
 (** with the reset the same history is harmless *)
 Example commit_history_guarded_ok :
-  forallb not_crash (snd (run (synth_cfg_gen true true true true) oracle_translate dangling_ops)) = true.
+  forallb not_crash (snd (run (synth_cfg_gen true true true true true) oracle_translate dangling_ops)) = true.
 Proof. vm_compute. reflexivity. Qed.
 
 (** ---- witness 2: punct_segmentor and a full_shape toggle ---- *)
@@ -95,7 +95,7 @@ Definition stale_menu_ops : list op :=
    OpSelect 8; OpSetCaret 1; OpKey XK_BackSpace 0; OpKey XK_Delete 0; OpKey XK_Delete 0; OpSelect 0].
 
 Theorem punct_chain_stale_menu :
-  let cfg := synth_punct_cfg_gen true true true true in
+  let cfg := synth_punct_cfg_gen true true true true true in
   total_hyps cfg (synth_translate cfg) /\ cf_hist_guard cfg = true /\ cands_fit_seg (synth_translate cfg) /\
   cf_segmentors cfg = [SgAbc; SgPunct; SgFallback] /\
   existsb (fun o => match o with ObsCrash ErrSubstr => true | _ => false end)
@@ -103,11 +103,11 @@ Theorem punct_chain_stale_menu :
 Proof.
   cbv zeta. split.
   { split; [cbn; lia|]. split; [|reflexivity]. intros i s.
-    pose proof (all_translate_length2 (synth_punct_cfg_gen true true true true) oracle_translate i s eq_refl) as H.
-    pose proof (punct_translate_length (synth_punct_cfg_gen true true true true) i s) as H1.
-    assert (E : punct_width (synth_punct_cfg_gen true true true true) = 4) by reflexivity. rewrite E in H1.
+    pose proof (all_translate_length2 (synth_punct_cfg_gen true true true true true) oracle_translate i s eq_refl) as H.
+    pose proof (punct_translate_length (synth_punct_cfg_gen true true true true true) i s) as H1.
+    assert (E : punct_width (synth_punct_cfg_gen true true true true true) = 4) by reflexivity. rewrite E in H1.
     pose proof (oracle_translate_length i s). unfold synth_translate.
-    change (cf_page_size (synth_punct_cfg_gen true true true true)) with 5%Z. lia. }
+    change (cf_page_size (synth_punct_cfg_gen true true true true true)) with 5%Z. lia. }
   split; [reflexivity|]. split; [apply all_translate_fit_seg, oracle_cands_fit|]. split; [reflexivity|].
   vm_compute. reflexivity.
 Qed.
